@@ -19,6 +19,8 @@ import (
 	"verifharness/kit/pk"
 	"verifharness/synth/chains"
 	n3 "verifharness/synth/n3lsynth"
+
+	n3keys "github.com/joeqian10/neo3-gogogo-legacy/keys"
 )
 
 
@@ -201,6 +203,186 @@ func n3lRound(t *testing.T, r *kit.Run, n, cases int, thresholds map[int]int) {
 				}
 			}
 			viol(r, key, fmt.Sprintf("state root accepted with %d distinct state-validator signer(s), needs %d of %d", distinct, T, n), replay)
+		}
+	}
+}
+
+// n3lReregistration: the tracked state-validator set is built through SEVERAL approved registration
+// rounds that re-submit already tracked keys (first / middle / last of the first round, random
+// ones, sometimes together with a new key). The model owns the expectation: the tracked set is the
+// set of DISTINCT registered keys (D of them) and a state root needs D-(D-1)/3 distinct signers
+// (NEO N3 rule). The submitter then reads the stored list like anybody can and builds its witness
+// over that list as stored (copies included, if the contract kept any), letting every listed copy
+// of a re-submitted key sign.
+func n3lReregistration(t *testing.T, r *kit.Run, d, rep, cases int) {
+	const R = "neo3legacy"
+	rng := r.Rand(fmt.Sprintf("%s-rereg-%d-%d", R, d, rep))
+	e := nat.New(netID)
+	if err := e.InitGovernance(pk.NewKeys(rng, 4)); err != nil {
+		t.Fatal(err)
+	}
+	ks := n3.NewKeys(rng, d)
+	byPub := map[string]*n3keys.KeyPair{}
+	var order []string // distinct tracked keys in registration order (the model)
+	add := func(list []*n3keys.KeyPair) []string {
+		var pubs []string
+		for _, k := range list {
+			p := k.PublicKey.String()
+			pubs = append(pubs, p)
+			if byPub[p] == nil {
+				byPub[p] = k
+				order = append(order, p)
+			}
+		}
+		return pubs
+	}
+	if err := chains.RegisterStateValidators(e, add(ks)); err != nil {
+		r.Inconclusive(R + " re-registration: " + err.Error())
+		return
+	}
+	var resubmitted []string
+	rounds := 1 + rng.Intn(3)
+	for i := 0; i < rounds; i++ {
+		var list []*n3keys.KeyPair
+		pos := []string{"first", "middle", "last", "random"}[(i+rng.Intn(2))%4]
+		if i == 0 {
+			pos = []string{"first", "last", "middle"}[rng.Intn(3)]
+		}
+		var p string
+		switch pos {
+		case "first":
+			p = order[0]
+		case "middle":
+			p = order[len(order)/2]
+		case "last":
+			p = order[len(order)-1]
+		default:
+			p = order[rng.Intn(len(order))]
+		}
+		list = append(list, byPub[p])
+		resubmitted = append(resubmitted, p)
+		r.Count(R+"_resubmitted_"+pos, 1)
+		if rng.Intn(4) == 0 {
+			list = append(list, n3.NewKey(rng)) // together with a new validator
+		}
+		if err := chains.RegisterStateValidators(e, add(list)); err != nil {
+			r.Inconclusive(R + " re-registration: " + err.Error())
+			return
+		}
+		r.Count(R+"_reregistration_rounds", 1)
+	}
+	D := len(order)
+	required := D - (D-1)/3
+	raw, err := neo3_state_manager.GetCurrentStateValidator(e.Service())
+	if err != nil {
+		r.Inconclusive(R + ": " + err.Error())
+		return
+	}
+	stored, err := neo3_state_manager.DeserializeStringArray(raw)
+	if err != nil {
+		r.Inconclusive(R + ": " + err.Error())
+		return
+	}
+	if len(stored) != D {
+		r.Count(R+"_stored_list_differs_from_distinct_set", 1)
+	}
+	var listed []*n3keys.KeyPair
+	for _, p := range stored {
+		if byPub[p] == nil {
+			r.Inconclusive(R + ": stored list holds an unknown key")
+			return
+		}
+		listed = append(listed, byPub[p])
+	}
+	var distinctKeys []*n3keys.KeyPair
+	for _, p := range order {
+		distinctKeys = append(distinctKeys, byPub[p])
+	}
+	model := n3.FromKeys(distinctKeys, required)
+	L := len(listed)
+	isRe := map[string]bool{}
+	for _, p := range resubmitted {
+		isRe[p] = true
+	}
+	for i := 0; i < cases; i++ {
+		// the submitter's guess of the contract threshold over the stored list
+		mp := []int{L - (L-1)/3, required, required - 1}[rng.Intn(3)]
+		if mp < 1 {
+			mp = 1
+		}
+		if mp > L {
+			mp = L
+		}
+		script := n3.FromKeys(listed, mp)
+		// positions (script order): every listed copy of a re-submitted key first, then others
+		var who, rest []int
+		for j, k := range script.Keys {
+			if isRe[k.PublicKey.String()] {
+				who = append(who, j)
+			} else {
+				rest = append(rest, j)
+			}
+		}
+		shape := []string{"every-listed-copy-signs", "honest-distinct", "one-short"}[rng.Intn(3)]
+		want := mp
+		if shape == "one-short" {
+			want = mp - 1
+		}
+		if shape == "honest-distinct" {
+			// distinct keys only
+			seen := map[string]bool{}
+			who, rest = nil, nil
+			for j, k := range script.Keys {
+				if !seen[k.PublicKey.String()] {
+					seen[k.PublicKey.String()] = true
+					rest = append(rest, j)
+				}
+			}
+		}
+		rng.Shuffle(len(rest), func(a, b int) { rest[a], rest[b] = rest[b], rest[a] })
+		for len(who) < want && len(rest) > 0 {
+			who, rest = append(who, rest[0]), rest[1:]
+		}
+		if len(who) > want {
+			who = who[:want]
+		}
+		sort.Ints(who)
+		if len(who) == 0 {
+			continue
+		}
+		var root [32]byte
+		rng.Read(root[:])
+		sr := n3.StateRoot(uint32(5000+i), root)
+		msg := n3.StateRootMessage(sr, n3Magic)
+		kinds := make([]n3.SlotKind, len(who)) // all Valid
+		sigs := script.Sigs(rng, msg, kinds, who)
+		n3.SetStateRootWitness(sr, n3.Invocation(sigs), script.Script)
+		rawSR := n3.RawStateRoot(sr)
+		ccm := new(pn3.NeoCrossChainMsg)
+		if err := ccm.Deserialization(pcommon.NewZeroCopySource(rawSR)); err != nil {
+			r.Inconclusive(R + ": state root does not round-trip")
+			return
+		}
+		var verr error
+		if p := kit.Catch(func() { verr = pn3.VerifyCrossChainMsgSig(e.Service(), n3Magic, ccm) }); p != nil {
+			verr = fmt.Errorf("panic: %v", p)
+		}
+		acc := verr == nil
+		distinct := model.DistinctValid(msg, sigs)
+		r.Eval(1)
+		r.Distinct(R, "rereg", D, L, mp, shape, len(who), distinct, acc)
+		r.Count(R+"_rereg_shape_"+shape, 1)
+		if !acc {
+			r.Count(R+"_rereg_refused", 1)
+			continue
+		}
+		r.Count(R+"_rereg_accepted", 1)
+		if distinct < required {
+			viol(r, R+":stateroot-resubmitted-validator-counted-twice",
+				fmt.Sprintf("state root accepted with %d signature(s) of %d distinct state validator(s); %d distinct validators are tracked (registered over %d rounds, %d key(s) re-submitted), %d distinct signers required; stored list has %d entries",
+					len(sigs), distinct, D, rounds+1, len(resubmitted), required, L),
+				map[string]interface{}{"router": R, "distinct_tracked_validators": order, "resubmitted": resubmitted, "stored_list": stored, "script_m": mp, "signer_positions": who,
+					"state_root_hex": kit.Hex(rawSR), "distinct_signers": distinct, "required": required, "magic": n3Magic})
 		}
 	}
 }
